@@ -29,13 +29,28 @@ def exact_escape(c, rep):
     return False
 
 
-def vws(ctx, prog, lib, roles):
+class _Muted:
+    """a context that records nothing (used to compute a table without reporting another property's rule)"""
+
+    def __init__(self, ctx):
+        self._ctx = ctx
+
+    def __getattr__(self, name):
+        if name in ("ok", "violation", "undecided", "anchor_lost", "no_verdict", "rule", "assume", "note", "missing"):
+            return lambda *a, **k: None
+        if name == "floor":
+            return lambda rid, what, n, minimum: n >= minimum
+        return getattr(self._ctx, name)
+
+
+def vws(ctx, prog, lib, roles, with_cas=True):
     r = fmtmodel.regexp_fmt_leaves(ctx, lib, roles)
     if not r:
         return
     b = r["body"]
     ws = common.const_table(lib, "unicode_tables::space::WHITE_SPACE")
-    clo, pred_class, info = common.classify_predicates(ctx, prog, lib)
+    # in the checks that only borrow VWS (with_cas=False) the wiring of the class predicates is not this property's business: TAB-1/2 results are not reported there
+    clo, pred_class, info = common.classify_predicates(ctx if with_cas else _Muted(ctx), prog, lib)
     for p, tok in (pred_class or {}).items():
         if tok == "\\s":
             ws = [(lo, hi) for lo, hi in info["pred_tab"][p][1]]
@@ -50,10 +65,12 @@ def vws(ctx, prog, lib, roles):
     # (a) characters already turned into ASCII escapes by the symbol escaper (every literal passes it: C11 ESCP-2)
     from .C01 import find_escaper
     covered = {}
+    literal_only = {}
     for E in find_escaper(lib):
         for rs in fmtmodel.replace_sites(lib, E):
             if rs["chars"] and len(rs["chars"]) == 1 and rs["rep"][0] == "const":
                 covered[rs["chars"][0]] = ccp.Tmpl([rs["rep"][1]])
+                literal_only[rs["chars"][0]] = E.path
     # (b) str::replace passes of the printer itself that run (at least) when verbose mode is on
     f_verbose = roles.get("verbose")
     fi = guards.FnInfo.of(b)
@@ -77,6 +94,7 @@ def vws(ctx, prog, lib, roles):
             unresolved.append(rs)
             continue
         for c in rs["chars"]:
+            literal_only.pop(c, None)       # a pass over the whole assembled pattern covers literals and bracket classes alike
             if rs["rep"][0] == "const":
                 covered[c] = ccp.Tmpl([rs["rep"][1]])
             elif rs["rep"][0] == "escape_unicode_of_item":
@@ -112,8 +130,23 @@ def vws(ctx, prog, lib, roles):
             vals = [l.value if isinstance(l.value, ccp.Tmpl) else ccp.to_tmpl(l.value) for l in ls]
             if ls and all(exact_escape(c, v) for v in vals):
                 covered[c] = vals[0]
+                literal_only.pop(c, None)
             elif len(ls) > 1 and any(exact_escape(c, v) for v in vals):
                 undecided[c] = "; ".join(a for l in ls for a, _ in l.label[:1])
+    # (d) a character that only the literal escaper rewrites must also be rewritten by the bracket-class printer: class members do not pass the literal escaper
+    from .C01 import class_member_renderer
+    render = class_member_renderer(lib)
+    for c in sorted(x for x in literal_only if x in ignored):
+        got = render(c) if render else None
+        if got is None:
+            ctx.undecided("VWS-1", b.path, "U+%04X is rewritten for literals by %s only, and the rendering of bracket-class members could not be evaluated" % (ord(c), literal_only[c]), b.loc())
+        elif not all(exact_escape(c, ccp.Tmpl([g])) for g in got):
+            ctx.violation("VWS-1", (b.path, "bracket class member U+%04X" % ord(c)),
+                          "under (?x) the engine ignores U+%04X also inside a bracket class; it is rewritten for literals (%s) but a member of a bracket class is printed as %s: "
+                          "the class loses that member%s" % (ord(c), literal_only[c], sorted(got), " or, for '#', the rest of the line becomes a comment and the pattern is rejected" if c == "#" else ""),
+                          render.closure.loc())
+        else:
+            ctx.ok("VWS-1", "%s:U+%04X in bracket classes" % (render.closure.path, ord(c)), {"rendered": sorted(got)}, render.closure.loc())
     nv = len([fl for fl in r["leaves"] if fl.flags.get("verbose")])
     for rs in unresolved:
         ctx.undecided("VWS-1", b.path, "cannot tell which characters the str::replace at line %s rewrites" % rs["line"], b.loc(rs["line"]))
@@ -140,7 +173,8 @@ def vws(ctx, prog, lib, roles):
         for c in sorted(ignored):
             ctx.ok("VWS-2", "%s:U+%04X" % (b.path, ord(c)), {"rewritten_to": ccp.show(covered[c])}, b.loc())
     ctx.floor("VWS-1", "verbose paths of RegExp::fmt", nv, 24)
-    fmtmodel.cas1(ctx, lib, roles)
+    if with_cas:
+        fmtmodel.cas1(ctx, lib, roles)
 
 
 def group_printers(lib):
